@@ -407,6 +407,8 @@ fn run_codec(ctx: &Ctx, which: &'static str) -> Report {
         // directed: exact length boundaries for the three length-carrying places of a v5 PUBLISH
         let r3 = run_cases(ctx, 3, 1, "", |_, _, rep| directed_boundaries(rep));
         total.merge(r3);
+        let r4 = run_cases(ctx, 4, 1, "", |_, _, rep| builder_surface(rep));
+        total.merge(r4);
     } else {
         let r2 = run_cases(ctx, 2, 1, "", |_, _, rep| enum_tables(rep));
         total.merge(r2);
@@ -421,6 +423,40 @@ fn run_codec(ctx: &Ctx, which: &'static str) -> Report {
         }
     }
     total
+}
+
+/// builder states the abstract packets cannot express: whatever the builder accepts must survive encode -> parse
+fn builder_surface(rep: &mut Report) {
+    use mqtt_protocol_core::mqtt;
+    use mqtt_protocol_core::mqtt::packet::v5_0 as v5;
+    rep.hit("R9-builder-accepted-packet-round-trips");
+    rep.evaluations += 1;
+    // will properties without a will message
+    let built = guard::call(|| {
+        let wp: mqtt::packet::Property = mqtt::packet::WillDelayInterval::new(5).unwrap().into();
+        v5::Connect::builder().client_id("c").unwrap().will_props(vec![wp]).build()
+    });
+    match built {
+        Err(pn) => rep.violate(Violation { property: "C02".into(), rule: "R9-builder-accepted-packet-round-trips".into(), signature: "C02.R9-builder-accepted-packet-round-trips@case=will-props-without-will;panic".into(), what: pn.message, witness: serde_json::json!({}), case: (4, 0) }),
+        Ok(Err(_)) => rep.count("builder_surface_rejected[will props without will]"),
+        Ok(Ok(p)) => {
+            let b = p.to_continuous_buffer();
+            let reparsed = match rc::frame_at(&b) {
+                rc::Framed::Frame { body_off, total, .. } if total == b.len() => v5::Connect::parse(&b[body_off..]).ok().map(|x| x.0),
+                _ => None,
+            };
+            if p.size() != b.len() || reparsed.as_ref() != Some(&p) {
+                rep.violate(Violation {
+                    property: "C02".into(),
+                    rule: "R9-builder-accepted-packet-round-trips".into(),
+                    signature: "C02.R9-builder-accepted-packet-round-trips@case=will-props-without-will".into(),
+                    what: format!("Connect::builder().will_props([WillDelayInterval]) without will_message() builds a packet (size {} / {} bytes) whose own bytes parse to {}", p.size(), b.len(), if reparsed.is_some() { "a different packet (the will properties are gone)" } else { "an error" }),
+                    witness: serde_json::json!({"bytes": hex(&b)}),
+                    case: (4, 0),
+                });
+            }
+        }
+    }
 }
 
 /// every total length around the VBI boundaries for topic / properties / payload of a v5 PUBLISH,
